@@ -138,6 +138,13 @@ def _exercise(report, lab, drv, n_valsets, seed, quick):
                     report.count("runs.py.empty-batches")
             pyjobs.append(job)
             pending.append((pj, pname, vals, outp, ctx, ref))
+            if '"arr"' in json.dumps(pj) and (k % 2 == 0 or big):
+                # the same values with every multi-dimensional array in Fortran order / as a strided view of a larger buffer
+                outl = lab.tmp(".py-layout.bin")
+                pyjobs.append({"proto": pname, "infmt": "b", "outfmt": "b", "in": inp, "out": outl, "mode": "hold", "relayout": True,
+                               "steps": [{"name": vlib.to_snake(s["name"]), "stream": s["stream"]} for s in pj]})
+                pending.append((pj, pname, vals, outl, dict(ctx, py_mode="hold, arrays handed over in Fortran order / as strided views"), ref))
+                report.count("runs.py.relayout")
     results = lab.run_py(pyjobs)
     for (pj, pname, vals, outp, ctx, ref), res in zip(pending, results):
         _judge(report, lab, drv, pj, pname, vals, "py", res["rc"], res["exc"], outp, ctx, ref)
